@@ -2,6 +2,7 @@
   Specifications of the line tools, written from the property text (not from the code).
 -/
 import MotoModel.Model.Py
+import MotoModel.Model.LineTools
 namespace Moto.Spec
 
 /-- moto_prettier as a character automaton: a double quote toggles the literal state;
@@ -16,5 +17,31 @@ def specUpper : Bool → Str → Str
 def litAfter : Bool → Str → Bool
   | b, [] => b
   | b, c :: cs => litAfter (if c = 34 then !b else b) cs
+
+end Moto.Spec
+
+namespace Moto.Spec
+
+/-- moto_nl as the property words it: a line that begins with a number is reproduced, any other
+    line gets a number — the start value for the first line, otherwise the previous line's
+    number plus the increment — left-aligned, padded to the width, and one blank. -/
+def specNl (start incr width : Nat) : Option Nat → List Str → List Str
+  | _, [] => []
+  | prev, l :: ls =>
+    let body := rstripNL l
+    match leadingNumber body with
+    | some k => body :: specNl start incr width (some k) ls
+    | none =>
+      let n := match prev with | none => start | some p => p + incr
+      (padRight (digits n) width ++ [32] ++ body) :: specNl start incr width (some n) ls
+
+/-- split a byte file at every CR or LF (`cur` is the line being accumulated) -/
+def splitCRLF : Bytes → Bytes → List Bytes
+  | cur, [] => [cur]
+  | cur, b :: bs => if b = 13 ∨ b = 10 then cur :: splitCRLF [] bs else splitCRLF (cur ++ [b]) bs
+
+/-- ASCII BASIC → listing: the non-empty lines, each followed by the line ending -/
+def specToListing (eol : Bytes) (data : Bytes) : Bytes :=
+  ((splitCRLF [] data).filter (· ≠ [])).flatMap (· ++ eol)
 
 end Moto.Spec
